@@ -28,7 +28,7 @@ let kind_of = function
 let is_reg k = k >= 'A' && k <= 'Z'
 let ptrs nd = match nd.k with
   | 'S' | 's' | 'W' | 'R' | 'r' | 'B' | 'P' -> Array.to_list nd.f
-  | 'F' -> []
+  | 'F' | 'I' | 'D' | 'G' -> []
   | 'V' -> List.filter (fun x -> x <> 0) (Array.to_list nd.f)      (* the Mark method skips NULL fields *)
   | 'T' | 'E' | 'Y' | 'Z' -> List.map snd nd.kv
   | _ -> nd.items
